@@ -1,7 +1,7 @@
 CONSTANTS
-  Handles = {"h1", "h2", "o1"}
-  Ops = {"o1"}
-  InitLive = {"h1", "h2", "o1"}
+  Handles = {"h1"}
+  Ops = {}
+  InitLive = {"h1"}
   Variant = "sync"
   AllowClone = FALSE
   AllowTake2 = TRUE
